@@ -49,19 +49,30 @@ for prop in [None] + R.RQ_PROPOSALS[1:]:
     for ac_set in R.AC_SETTINGS:
         for supported in (True, False):
             for rq_ts, ac_ts in (([TS[0]], [TS[0]]), ([TS[0], TS[1]], [TS[1], TS[0]]), ([TS[0]], [TS[1]]), (TS, [TS[2], TS[0]])):
+              for sname, ab2, ts2, order in (("other", ABS[1], None, 0), ("same-supported", ABS[0], None, 0),
+                                             ("same-unsupported", ABS[0], ["1.2.840.10008.1.2.4.90"], 0),
+                                             ("same-unsupported-first", ABS[0], ["1.2.840.10008.1.2.4.90"], 1)):
+                if bad:
+                    break
                 n += 1
-                proposed = [cx(1, ABS[0], rq_ts), cx(3, ABS[1], rq_ts)]
+                first_id, second_id = (1, 3) if order == 0 else (3, 1)
+                proposed = [cx(first_id, ABS[0], rq_ts), cx(second_id, ab2, ts2 or rq_ts)]
+                if order:
+                    proposed.reverse()
                 sup = [cx(None, ABS[0] if supported else ABS[2], ac_ts, *ac_set)]
                 roles = {ABS[0]: prop} if prop else {}
                 res, replies = negotiate_as_acceptor(proposed, sup, dict(roles))
                 wire, reply_map = through_wire(res, replies)
-                requested = [cx(1, ABS[0], rq_ts, *( ((prop[0] or False), (prop[1] or False)) if prop else (None, None))), cx(3, ABS[1], rq_ts)]
+                rk = ((prop[0] or False), (prop[1] or False)) if prop else (None, None)
+                requested = sorted([cx(first_id, ABS[0], rq_ts, *rk), cx(second_id, ab2, ts2 or rq_ts, *(rk if ab2 == ABS[0] else (None, None)))],
+                                   key=lambda c: c.context_id)
                 out = negotiate_as_requestor(requested, wire, reply_map)
                 a = {c.context_id: c for c in res}
                 r = {c.context_id: c for c in out}
                 acc_a = sorted(k for k, c in a.items() if c.result == 0)
                 acc_r = sorted(k for k, c in r.items() if c.result == 0)
-                desc = {"proposal": prop, "acceptor_roles": ac_set, "abstract_syntax_supported": supported, "rq_ts": rq_ts, "ac_ts": ac_ts}
+                desc = {"proposal": prop, "acceptor_roles": ac_set, "abstract_syntax_supported": supported, "rq_ts": rq_ts, "ac_ts": ac_ts,
+                        "second proposed context": sname}
                 if sorted(r) != [1, 3] or len(out) != 2:
                     bad = dict(input=desc, observed=sorted(r), expected=[1, 3])
                 elif acc_a != acc_r:
